@@ -360,3 +360,35 @@ def rule_gs_procstate(cx, rep, port='py'):
             rep.violated('{}: {}'.format(m, d), nd, '`{}` in {}() changes a process-wide setting: it is shared with every other query running in this process (a restore at the end of one query undoes it for another that is still running) and with the host application'.format(node_text(nd, 60), fd.name if fd is not None else '<module>'))
         else:
             rep.holds('{}: process-wide settings'.format(m), (p.files[m], 0), 'no call or assignment that changes interpreter / process state')
+
+
+
+def rule_gs_debugflag(cx, rep, port='py'):
+    """the process-wide debug flags are switched on by request only: a library entry point that calls set_debug_mode() on every run
+    (with whatever its own argument says) overwrites what the application or an earlier caller has set, so how errors are reported by
+    one query depends on which other queries ran before it"""
+    p = cx.py
+    n = 0
+    for mod in ('rbql_csv', 'rbql_sqlite', 'rbql_pandas', 'rbql_engine'):
+        if mod not in p.modules:
+            continue
+        for fd in p.funcs_in(mod):
+            if fd.name == 'set_debug_mode':
+                continue
+            for c in walk_no_nested(fd):
+                if isinstance(c, ast.Call) and (call_name(c) or '').split('.')[-1] == 'set_debug_mode':
+                    n += 1
+                    guard = getattr(c, 'parent', None)
+                    guarded = False
+                    while guard is not None and guard is not fd:
+                        if isinstance(guard, ast.If) and any(c is x for b in guard.body for x in ast.walk(b)) and 'debug' in node_text(guard.test, 80):
+                            guarded = True
+                        guard = getattr(guard, 'parent', None)
+                    passes_flag = any(not (isinstance(a, ast.Constant) and a.value is True) for a in c.args) or any(True for k in c.keywords)
+                    if not guarded and passes_flag:
+                        rep.violated('{}.{} debug flag'.format(mod, fd.name), c, '{}() sets the process-wide debug flag on every call (`{}`): a run without debug switches off what the application or an earlier caller switched on'.format(fd.name, node_text(c, 60)))
+                    elif not guarded:
+                        rep.violated('{}.{} debug flag'.format(mod, fd.name), c, '{}() switches the process-wide debug flag on unconditionally'.format(fd.name))
+                    else:
+                        rep.holds('{}.{} debug flag'.format(mod, fd.name), c, 'set only when the caller asked for debug mode')
+    rep.require_count('set_debug_mode call sites', n, 1, (p.files['rbql_csv'], 0))
